@@ -1,5 +1,7 @@
 import ActixModel.Proofs.PanicChunk
 import ActixModel.Proofs.PanicWs
+import ActixModel.Proofs.PanicPath
+import ActixModel.Proofs.PanicRange
 /-
 C19 — no peer-controlled input makes the library panic.
 
@@ -87,5 +89,125 @@ theorem C19_ws_parse_progress (src : List Nat) (cap : Nat) (server : Bool) (maxS
 /-- **C19_no_panic_ws_close_payload** -/
 theorem C19_no_panic_ws_close_payload (p : List Nat) : NoPanic (Ws.parseClosePayload p) :=
   Ws.parseClosePayload_noPanic p
+
+/-! ## 3. actix-router `u16` path offsets (`path.rs`, `resource.rs::capture_match_info_fn`) -/
+
+/-- **C19_no_panic_router_capture**: one dynamic capture on any path state — any length, in
+particular longer than 65535 bytes — with any regex result that satisfies the regex
+post-condition.  (`Inv` is only needed, and only available, for paths that fit `u16`.) -/
+theorem C19_no_panic_router_capture (p : Path.P) (m : Path.Match)
+    (hi : p.len ≤ u16Max → Path.Inv p) (hm : m.Valid p) : NoPanic (Path.capture p m) :=
+  Path.capture_noPanic p m hi hm
+
+/-- **C19_router_inv**: the invariant (`skip ≤ len ≤ u16::MAX`, every stored segment
+`start ≤ end ≤ len`) holds initially and is preserved by every successful capture — hence,
+by induction, after every sequence of (nested scope / resource) captures. -/
+theorem C19_router_inv_init (len : Nat) (h : len ≤ u16Max) : Path.Inv (Path.P.new len) :=
+  Path.inv_new len h
+
+theorem C19_router_inv_step (p p' : Path.P) (m : Path.Match) (hi : Path.Inv p) (hm : m.Valid p)
+    (h : Path.capture p m = .ok (some p')) : Path.Inv p' := Path.capture_inv p p' m hi hm h
+
+/-- all capture sequences: fold of captures from the empty state, each match valid for the state
+it is applied to (`none` = "did not match": the state is unchanged) -/
+def runCaptures : Path.P → List Path.Match → Outcome Path.P
+  | p, [] => .ok p
+  | p, m :: ms =>
+    match Path.capture p m with
+    | .ok (some p') => runCaptures p' ms
+    | .ok none => runCaptures p ms
+    | .err e => .err e
+    | .panic s => .panic s
+
+def AllValid : Path.P → List Path.Match → Prop
+  | _, [] => True
+  | p, m :: ms => m.Valid p ∧ (∀ p', Path.capture p m = .ok (some p') → AllValid p' ms) ∧
+      (Path.capture p m = .ok none → AllValid p ms)
+
+/-- **C19_no_panic_router_sequence**: for every path length ≤ `u16::MAX` and every sequence of
+valid matches, no capture panics and afterwards every `Path::get` / `Path::iter` slice is in
+bounds. -/
+theorem C19_no_panic_router_sequence (ms : List Path.Match) :
+    ∀ (p : Path.P), Path.Inv p → AllValid p ms →
+      ∃ q, runCaptures p ms = .ok q ∧ Path.Inv q := by
+  induction ms with
+  | nil => intro p hi _; exact ⟨p, rfl, hi⟩
+  | cons m ms ih =>
+    intro p hi hv
+    obtain ⟨hm, hsome, hnone⟩ := hv
+    have hnp := Path.capture_noPanic p m (fun _ => hi) hm
+    unfold runCaptures
+    cases hc : Path.capture p m with
+    | panic s => rw [hc] at hnp; exact absurd hnp (by simp)
+    | err e =>
+      -- `capture` has no graceful-error path
+      exfalso
+      unfold Path.capture at hc
+      split at hc
+      · cases hc
+      · obtain ⟨q, hq, _⟩ := Path.captureUnguarded_inv p m hi hm
+        simp [hq, Outcome.map] at hc
+    | ok r =>
+      cases r with
+      | none => exact ih p hi (hnone hc)
+      | some p' => exact ih p' (Path.capture_inv p p' m hi hm hc) (hsome p' hc)
+
+theorem C19_no_panic_router_get (p : Path.P) (i : Nat) (hi : Path.Inv p) :
+    NoPanic (Path.getSeg p i) ∧ NoPanic (Path.iterAll p) :=
+  ⟨Path.getSeg_noPanic p i hi, Path.iterAll_noPanic p hi⟩
+
+example : Path.Inv ⟨20, 4, [(1, 4)]⟩ ∧ (⟨[(1, 6)], 6⟩ : Path.Match).Valid ⟨20, 4, [(1, 4)]⟩ := by
+  refine ⟨⟨by decide, by decide, ?_⟩, by decide, ?_⟩ <;> intro x hx <;> simp at hx <;> subst hx <;> decide
+
+/- The code before the `fix:` commit (no length guard) — kept as witnesses of the repaired defect:
+   (a) `skip + begin` overflows `u16` on a 70002-byte path,
+   (b) on a 65536-byte path `m.end() as u16` truncates 65536 to 0 and `Path::get` slices `[1..0]`. -/
+theorem witness_router_u16_add_overflow_before_fix :
+    (Path.captureUnguarded ⟨70002, 40001, []⟩ ⟨[(1, 30001)], 30001⟩).isPanic = true := by decide
+
+theorem witness_router_u16_truncation_before_fix :
+    (match Path.captureUnguarded ⟨65536, 0, []⟩ ⟨[(1, 65536)], 65536⟩ with
+     | .ok p => (Path.getSeg p 0).isPanic
+     | _ => false) = true := by decide
+
+/-! ## 4. `Range`: the typed header (`actix-web/src/http/header/range.rs`) and the files path
+(`http-range` + `actix-files/src/named.rs`) -/
+
+/-- **C19_no_panic_range_satisfiable**: `ByteRangeSpec::to_satisfiable_range` for every spec and
+every `full_length` (including 0 and `u64::MAX`). -/
+theorem C19_no_panic_range_satisfiable (spec : Range.Spec) (fl : Nat) :
+    NoPanic (Range.toSatisfiable spec fl) := Range.toSatisfiable_noPanic spec fl
+
+/-- **C19_range_satisfiable_bounds**: what it returns satisfies the documented guarantee
+`from ≤ to < full_length`. -/
+theorem C19_range_satisfiable_bounds (spec : Range.Spec) (fl a b : Nat)
+    (h : Range.toSatisfiable spec fl = .ok (some (a, b))) : a ≤ b ∧ b < fl :=
+  Range.toSatisfiable_bounds spec fl a b h
+
+/-- **C19_no_panic_http_range**: `http_range::HttpRange::parse_bytes` (third-party, modelled from
+source) for every header and every `u64` size — its own subtractions are all guarded. -/
+theorem C19_no_panic_http_range (header : List Nat) (size : Nat) (hs : size ≤ u64Max) :
+    NoPanic (Range.parseBytes header size) := (Range.parseBytes_spec header size hs).1
+
+/- Full statement — false of the code in this tree (DESIGN §6 F7, known finding
+   `files-range-empty-file-underflow`, repaired by work-stream C16):
+     theorem C19_no_panic_files_range : ∀ header size, size ≤ u64Max → NoPanic (Range.fileRange header size) -/
+
+/-- **C19_no_panic_files_range_partial**: extra hypothesis `0 < size` (the file is not empty). -/
+theorem C19_no_panic_files_range_partial (header : List Nat) (size : Nat) (hpos : 0 < size)
+    (hs : size ≤ u64Max) : NoPanic (Range.fileRange header size) :=
+  Range.fileRange_noPanic header size hpos hs
+
+example : (0 : Nat) < 10 ∧ (10 : Nat) ≤ u64Max := by decide
+
+/-- `Range: bytes=-5` on a 0-byte file panics in `offset + length - 1` -/
+theorem witness_files_range_empty_file :
+    (Range.fileRange [98, 121, 116, 101, 115, 61, 45, 53] 0).isPanic = true := by decide
+
+/-- **C19_files_range_bounds**: the announced `Content-Range` lies inside the file. -/
+theorem C19_files_range_bounds (header : List Nat) (size f l sz len : Nat) (hpos : 0 < size)
+    (hs : size ≤ u64Max) (h : Range.fileRange header size = .ok (.partial_ f l sz len)) :
+    f ≤ l ∧ l < size ∧ sz = size ∧ l + 1 = f + len :=
+  Range.fileRange_bounds header size f l sz len hpos hs h
 
 end ActixModel.Panic.C19
